@@ -598,3 +598,27 @@ Proof.
   destruct (create_offer (run_ops (pc_init false) dup_mid_history)) as [[p' o] fx] eqn:E.
   vm_compute in E. inversion E; subst. eexists _, _, _. split; reflexivity.
 Qed.
+
+(* CreateOffer's error path keeps the setNegotiated marks made before the
+   failing remote section: two recvonly transceivers are negotiated, the remote
+   answer names mid "9" instead of "1"; AddTrack puts a new (not negotiated)
+   sender on the first transceiver; CreateOffer fails at section "9" -- after
+   having matched section "0" -- and that sender is negotiated afterwards *)
+Definition failed_offer_history : list op :=
+  let none := {| i_trk := {| k_id := ""; k_stream := ""; k_rid := "" |}; i_ssrc := 0; i_rtx := 0; i_fec := 0 |} in
+  let e := {| rtx_audio := false; rtx_video := false; fec_audio := false; fec_video := false |} in
+  [OAddTcvKind Video (Some Recvonly) none; OAddTcvKind Audio (Some Recvonly) none;
+   OCreateOffer; OSetLocal TOffer;
+   OSetRemote TAnswer [{| sc_mid := Some "0"; sc_media := MVideo; sc_dir := Some Sendonly; sc_attrs := [] |};
+                       {| sc_mid := Some "9"; sc_media := MAudio; sc_dir := Some Sendonly; sc_attrs := [] |}] e;
+   OAddTrack Video {| i_trk := {| k_id := "ta"; k_stream := "s1"; k_rid := "q" |}; i_ssrc := 5; i_rtx := 0; i_fec := 0 |}].
+
+Definition negotiated_flags (p : pc) : list (option bool) :=
+  map (fun t => option_map sn_negotiated (t_sender t)) (p_tcvs p).
+
+Lemma failed_offer_keeps_marks :
+  let p := run_ops (pc_init false) failed_offer_history in
+  negotiated_flags p = [Some false; None]
+  /\ o_status (snd (fst (create_offer p))) = "mid-not-found"
+  /\ negotiated_flags (fst (fst (create_offer p))) = [Some true; None].
+Proof. vm_compute. repeat split. Qed.
